@@ -285,8 +285,10 @@ def downloaderGraph : TaskGraph :=
 
 /-- `c12_ll_loop_cancellable`: the regenerated graph of the stream downloader contains the Low-Latency loop
     (preload-hint request → its body → playlist reload → its body → next hint, or the fatal "preload hint
-    disappeared"), exactly once, and each of its four blocking operations has the pool-context arm; that arm and the
-    failing arm lead straight to `return err` of `run` (class `io`). -/
+    disappeared", or — fix-F28 — the end of the stream: `push(nil)` and the wait `<-ctx.Done()`), exactly once;
+    each of its four blocking I/O operations has the pool-context arm, and that arm and the failing arm lead straight
+    to `return err` of `run` (class `io`); the end-of-stream wait is a receive on the POOL context only, followed by
+    the return (class `terminated`). (On the upstream tree the loop has no end-of-stream wait and is not found.) -/
 theorem c12_ll_loop_cancellable :
     downloaderGraph ∈ Hls.Gen.taskGraphs ∧ downloaderGraph.name = "clientStreamDownloader" ∧
     (llLoops Hls.Gen.blockingRows downloaderGraph).length = 1 ∧
@@ -304,13 +306,37 @@ theorem c12_ll_cancel_returns :
   intro l hl i hi
   have hok : downloaderGraph.ok = true := c12_graphs_ranked _ c12_ll_loop_cancellable.1
   have hlok := c12_ll_loop_cancellable.2.2.2 l hl
-  have hnode : llNodeOk downloaderGraph i = true := List.all_eq_true.mp hlok i hi
+  have hnode : llNodeOk downloaderGraph i = true :=
+    List.all_eq_true.mp (Bool.and_eq_true _ _ ▸ hlok : _ ∧ _).1 i hi
   have hm : downloaderGraph.maxRank = 1 := by decide
   cases hn : downloaderGraph.nodes[i]? with
   | none => simp [llNodeOk, hn] at hnode
   | some n =>
     refine ⟨Hls.Pool.cancel_progress hok hn, fun t ht => ll_cancel_returns hlok hi ht, fun t k d hrun => ?_⟩
     have hv : downloaderGraph.valid (.node i) = true := by simp [TaskGraph.valid, TaskGraph.rankOf, hn]
+    have := cancel_terminates hok hv hrun
+    rw [hm] at this
+    omega
+
+/-- `c12_ll_eos_wait_cancellable`: a stream downloader whose Low-Latency stream has ended (nil marker pushed, parked
+    in `<-ctx.Done()`) is not stuck for ever: the wait is guarded by the pool context, every step it can take —
+    there is one as soon as the pool is cancelled, i.e. when `ErrClientEOS` or any other result makes `Client.run`
+    close the pool, or on `Close` — is the return of `run`; it returns within one own step. -/
+theorem c12_ll_eos_wait_cancellable :
+    ∀ l ∈ llLoops Hls.Gen.blockingRows downloaderGraph,
+      (∃ t, CStep downloaderGraph (.node l.eosWait) false t) ∧
+      (∀ b t, CStep downloaderGraph (.node l.eosWait) b t → t = .ret .terminated) ∧
+      (∀ t n d, CRun downloaderGraph (.node l.eosWait) n d t → n ≤ 1 + d * 2) := by
+  intro l hl
+  have hok : downloaderGraph.ok = true := c12_graphs_ranked _ c12_ll_loop_cancellable.1
+  have hlok := c12_ll_loop_cancellable.2.2.2 l hl
+  have hm : downloaderGraph.maxRank = 1 := by decide
+  have heos : llEosOk downloaderGraph l.eosWait = true := (Bool.and_eq_true _ _ ▸ hlok : _ ∧ _).2
+  cases hn : downloaderGraph.nodes[l.eosWait]? with
+  | none => simp [llEosOk, hn] at heos
+  | some n =>
+    refine ⟨Hls.Pool.cancel_progress hok hn, fun b t ht => ll_eos_cancel_returns hlok ht, fun t k d hrun => ?_⟩
+    have hv : downloaderGraph.valid (.node l.eosWait) = true := by simp [TaskGraph.valid, TaskGraph.rankOf, hn]
     have := cancel_terminates hok hv hrun
     rw [hm] at this
     omega
@@ -386,10 +412,23 @@ example : (runLabels params schedCloseDuringHint { runner := .init }).map
     (fun s => (s.received, s.delivered, s.returned, s.closeCalls, s.panicked, s.allDone)) =
     some ([.terminated], [], [.terminated, .io], 2, false, true) := by decide
 
-/-- Low-Latency: the stream runs until the origin stops advertising a hint — hint, its body, reload, its body, then
-    `return fmt.Errorf("preload hint disappeared")` is the first fatal error and what `Wait()` yields -/
-def schedHintDisappears : List Label :=
+/-- Low-Latency, fix-F28: the stream ENDS — hint, its body, reload, its body: ENDLIST and no hint; the downloader
+    pushes the nil marker and parks in `<-ctx.Done()`; the primary downloader sees the stream ended and returns
+    `ErrClientEOS`; `Client.run` closes the pool, the parked downloader returns; exactly one result: `eos` -/
+def schedLLEndOfStream : List Label :=
   [.runner, .begin 0 0, .arm 0 0 0, .arm 0 0 0, .spawn 0 1, .begin 1 2, .arm 1 0 0, .arm 1 0 0, .arm 1 0 0, .arm 1 0 1,
+   .arm 0 0 1, .arm 0 0 1, .arm 0 0 1, .ret 0, .runnerRecvErr 0, .runner, .arm 1 0 0, .ret 1, .giveUp 1, .runner, .runner, .recv]
+
+example : (llLoops Hls.Gen.blockingRows downloaderGraph).map (·.eosWait) = [13] := by decide
+
+example : (runLabels params schedLLEndOfStream { runner := .init }).map
+    (fun s => (s.received, s.delivered, s.returned, s.allDone, s.cbAfter)) =
+    some ([.eos], [.eos], [.eos, .terminated], true, 0) := by decide
+
+/-- Low-Latency: the origin stops advertising a hint WITHOUT ending the playlist — hint, its body, reload, its body,
+    then `return fmt.Errorf("preload hint disappeared")` is the first fatal error and what `Wait()` yields -/
+def schedHintDisappears : List Label :=
+  [.runner, .begin 0 0, .arm 0 0 0, .arm 0 0 0, .spawn 0 1, .begin 1 2, .arm 1 0 0, .arm 1 0 0, .arm 1 0 0, .arm 1 0 2,
    .ret 1, .runnerRecvErr 1, .runner, .arm 0 1 0, .ret 0, .giveUp 0, .runner, .runner, .recv]
 
 example : (runLabels params schedHintDisappears { runner := .init }).map
